@@ -4,6 +4,7 @@ package main
 
 import (
 	"fmt"
+	"sort"
 	"go/token"
 	"go/types"
 
@@ -49,7 +50,7 @@ func (fc *fctx) instr(ins ssa.Instruction) {
 		if at, ok := et.Underlying().(*types.Array); ok {
 			if at.Len() <= 8 {
 				for i := int64(0); i < at.Len(); i++ {
-					tr.store(ea(a, fmt.Sprint(i)), at.Elem(), u.zero(at.Elem()))
+					tr.storeTag(ea(a, fmt.Sprint(i)), at.Elem(), u.zero(at.Elem()), "elem")
 				}
 			}
 		} else {
@@ -65,7 +66,7 @@ func (fc *fctx) instr(ins ssa.Instruction) {
 	case *ssa.Store:
 		fc.derefCheck(x.Addr, x.Pos())
 		et := x.Addr.Type().Underlying().(*types.Pointer).Elem()
-		tr.store(fc.val(x.Addr).E(), et, fc.val(x.Val))
+		tr.storeTag(fc.val(x.Addr).E(), et, fc.val(x.Val), fc.addrTag(x.Addr))
 	case *ssa.UnOp:
 		fc.unop(x)
 	case *ssa.BinOp:
@@ -119,7 +120,7 @@ func (fc *fctx) instr(ins ssa.Instruction) {
 		tr.obligeAssume("safe", "safe/"+fnKey(fc.fn)+"/makeslice", fmt.Sprintf("(and (<= 0 %s) (<= %s %s))", ln.E(), ln.E(), cp.E()), x.Pos())
 		st := x.Type().Underlying().(*types.Slice)
 		// zero contents: fresh memory was never written, so assuming its content is consistent
-		for _, l := range u.leaves(st.Elem()) {
+		for _, l := range u.leavesTag(st.Elem(), "elem") {
 			if l.comp == "UNSUPPORTED" {
 				continue
 			}
@@ -238,7 +239,7 @@ func (fc *fctx) unop(x *ssa.UnOp) {
 	case token.MUL:
 		fc.derefCheck(x.X, x.Pos())
 		et := x.X.Type().Underlying().(*types.Pointer).Elem()
-		fc.setVal(x, tr.load(tr.cur, fc.val(x.X).E(), et))
+		fc.setVal(x, tr.loadTag(tr.cur, fc.val(x.X).E(), et, fc.addrTag(x.X)))
 	case token.NOT:
 		fc.setVal(x, mkVal(not(fc.val(x.X).E()), "Bool", x.Type()))
 	case token.SUB:
@@ -556,13 +557,13 @@ func (fc *fctx) convert(x *ssa.Convert) {
 	case from == "Slice" && to == "String":
 		u.decl("bytes2str", "(declare-fun bytes2str ((Array Int Int) Slice) String)")
 		u.decl("bytes2str_len", "(assert (forall ((m (Array Int Int)) (s Slice)) (! (= (str.len (bytes2str m s)) (sl_len s)) :pattern ((bytes2str m s)))))")
-		fc.setVal(x, mkVal("(bytes2str "+tr.cur.get(u, "MInt")+" "+v.E()+")", "String", x.Type()))
+		fc.setVal(x, mkVal("(bytes2str "+tr.cur.get(u, "MInt$elem")+" "+v.E()+")", "String", x.Type()))
 	case from == "String" && to == "Slice":
 		a := tr.alloc()
 		u.decl("bytes2str", "(declare-fun bytes2str ((Array Int Int) Slice) String)")
 		u.decl("bytes2str_len", "(assert (forall ((m (Array Int Int)) (s Slice)) (! (= (str.len (bytes2str m s)) (sl_len s)) :pattern ((bytes2str m s)))))")
 		res := mkSlice(x.Type(), a, "0", "(str.len "+v.E()+")", "(str.len "+v.E()+")")
-		tr.assume(eq("(bytes2str "+tr.cur.get(u, "MInt")+" "+res.E()+")", v.E()))
+		tr.assume(eq("(bytes2str "+tr.cur.get(u, "MInt$elem")+" "+res.E()+")", v.E()))
 		fc.setVal(x, res)
 	case from == "Slice" && to == "Slice":
 		fc.vals[x] = []*Val{fc.retype(v, x.Type())}
@@ -619,7 +620,7 @@ func (fc *fctx) call(cc *ssa.CallCommon, pos token.Pos, site *ssa.Call) []*Val {
 		return fc.externalCall(callee, args, cc, pos)
 	}
 	// wrapper / bound-method thunks and synthetic functions: inline
-	if c, ok := tr.contracts.Funcs[key]; ok && !(fc.top && false) {
+	if c, ok := tr.contracts.Funcs[key]; ok && !tr.inlineAnyway[key] {
 		// recursion or explicit contract: modular call
 		var names []Param
 		for _, p := range callee.Params {
@@ -683,13 +684,31 @@ func (fc *fctx) inline(callee *ssa.Function, args []*Val, bindings []*Val, pos t
 		return sub.rets[0].vals
 	}
 	st := &State{M: map[string]string{}}
+	st.Epoch = sub.rets[0].st.Epoch
+	for _, r := range sub.rets[1:] {
+		if r.st.Epoch != st.Epoch {
+			tr.epoch++
+			st.Epoch = tr.epoch
+			var edges []epochEdge
+			for _, r2 := range sub.rets {
+				edges = append(edges, epochEdge{r2.reach, r2.st.Epoch})
+			}
+			u.epochs[tr.epoch] = epochRel{merge: edges}
+			break
+		}
+	}
 	keys := map[string]bool{}
 	for _, r := range sub.rets {
 		for k := range r.st.M {
 			keys[k] = true
 		}
 	}
+	var sortedKeys []string
 	for k := range keys {
+		sortedKeys = append(sortedKeys, k)
+	}
+	sort.Strings(sortedKeys)
+	for _, k := range sortedKeys {
 		if _, ok := u.compSort[k]; !ok {
 			continue
 		}
@@ -794,7 +813,7 @@ func (fc *fctx) builtin(b *ssa.Builtin, cc *ssa.CallCommon, pos token.Pos, site 
 		// abstracted: destination elements havocked
 		dst := fc.val(cc.Args[0])
 		if st, ok := cc.Args[0].Type().Underlying().(*types.Slice); ok {
-			for _, l := range u.leaves(st.Elem()) {
+			for _, l := range u.leavesTag(st.Elem(), "elem") {
 				old := tr.cur.get(u, l.comp)
 				n := tr.havocComp(l.comp)
 				tr.fact(fmt.Sprintf("(forall ((a Int)) (! (=> (not (= (obase a) (obase %s))) (= (select %s a) (select %s a))) :pattern ((select %s a))))", slPart(dst, 0), n, old, n))
@@ -838,7 +857,7 @@ func (fc *fctx) appendOp(cc *ssa.CallCommon, pos token.Pos) *Val {
 	sl, sc := slPart(s, 2), slPart(s, 3)
 	newLen := add(sl, tl)
 	fits := tr.define(fc.prefix+"fits", "Bool", "(<= "+newLen+" "+sc+")")
-	leaves := u.leaves(elemT)
+	leaves := u.leavesTag(elemT, "elem")
 	// in-place branch
 	inPlace := map[string]string{}
 	if isNum(tl) {
@@ -851,7 +870,7 @@ func (fc *fctx) appendOp(cc *ssa.CallCommon, pos token.Pos) *Val {
 		for j := 0; j < n; j++ {
 			src := u.sla(t, fmt.Sprint(j))
 			dst := u.sla(s, add(sl, fmt.Sprint(j)))
-			tr.store(dst, elemT, tr.load(tr.cur, src, elemT))
+			tr.storeTag(dst, elemT, tr.loadTag(tr.cur, src, elemT, "elem"), "elem")
 		}
 		for _, l := range leaves {
 			inPlace[l.comp] = tr.cur.get(u, l.comp)
@@ -952,3 +971,28 @@ func (fc *fctx) appendOp(cc *ssa.CallCommon, pos token.Pos) *Val {
 }
 
 func slTermName(v *Val) string { return v.E() }
+
+// addrTag names the partition of the cell a pointer value designates when it is a leaf cell.
+func (fc *fctx) addrTag(v ssa.Value) string {
+	switch x := v.(type) {
+	case *ssa.FieldAddr:
+		st := x.X.Type().Underlying().(*types.Pointer).Elem()
+		s, _ := structOf(st)
+		sname := fc.tr.u.sortOf(st)
+		return sname[2:] + "_" + sanitize(s.Field(x.Field).Name())
+	case *ssa.IndexAddr:
+		return "elem"
+	case *ssa.ChangeType:
+		return fc.addrTag(x.X)
+	case *ssa.Alloc, *ssa.Global:
+		return "cell"
+	}
+	// a pointer of unknown origin to a leaf value: pointers stored in the document model designate
+	// stand-alone variables (never the middle of a struct or a slice element)
+	if _, isStruct := structOf(v.Type().Underlying().(*types.Pointer).Elem()); isStruct == "" {
+		if st, _ := structOf(v.Type().Underlying().(*types.Pointer).Elem()); st == nil {
+			fc.tr.trusted["pointers to non-struct values that are loaded or received designate stand-alone variables, not struct fields or slice elements"] = true
+		}
+	}
+	return "cell"
+}
